@@ -595,7 +595,9 @@ class Client(base_client.BaseClient):
                 self.queue.task_done()
                 packets = []
             else:
-                while True:
+                # do not put more packets in a payload than the other side is
+                # willing to decode
+                while len(packets) < payload.Payload.max_decode_packets:
                     try:
                         packets.append(self.queue.get(block=False))
                     except self.queue.Empty:
